@@ -25,7 +25,7 @@ def _mk_add(rng, univ, big=False):
         e = min(2**64 - 1, s + 1 + rng.below(64))
         if e <= s:
             s = e - 1
-        rel = rng.choice([0, 1, rng.below(1000), 2**32 - 1 - (e - s) - rng.below(4)])
+        rel = rng.choice([0, 1, rng.below(1000), 2**32 - (e - s) - rng.below(3), 2**32 - (e - s)])      # up to the very top: the last byte has relative address u32::MAX
     else:
         s = rng.below(univ)
         e = s + 1 + rng.below(max(1, univ // 3))
